@@ -146,6 +146,13 @@ impl Tr {
                     self.hint(&x, "Bool");
                     Ok(format!("(!{})", x))
                 }
+                UnOp::Neg(_) => match &*u.expr {
+                    Expr::Lit(l) => match &l.lit {
+                        Lit::Int(i) => Ok(format!("(-{} : Int)", i.base10_digits())),
+                        _ => err("negated non-integer literal"),
+                    },
+                    _ => err(format!("unsupported negation {}", e.to_token_stream())),
+                },
                 _ => err(format!("unsupported unary {}", e.to_token_stream())),
             },
             Expr::Cast(c) => {
@@ -175,7 +182,7 @@ impl Tr {
                     return Ok(t.clone());
                 }
                 match name.as_str() {
-                    "None" => return Ok("none".into()),
+                    "None" => return Ok("(none : Option Nat)".into()),
                     "u32::MAX" => return Ok("4294967295".into()),
                     "u16::MAX" => return Ok("65535".into()),
                     _ => {}
